@@ -30,7 +30,8 @@ META = {
         ' Round 8: no ordering / arithmetic on the optional numbers (twp_num / rge_num / sec_num) without a None test; reduce() / max() / min() not on a possibly empty sequence; every OCR look-alike the pattern captures is converted before an unguarded int().'
         ' Round 9: a recursive call changes something; float() on an acreage is guarded (the pattern accepts empty brackets); a result list filtered after the scan cannot come back empty to an unguarded [0].'
         ' Round 10: int() under an `.isdecimal()` test counts as guarded; config value validation is followed into the helper the value is handed to.'
-        ' Round 11: an undocumented exception type behind a condition is undecided (reachability of an invariant check is not decided), unconditional ones are violations; segment() is followed with an empty match list for every layout.'),
+        ' Round 11: an undocumented exception type behind a condition is undecided (reachability of an invariant check is not decided), unconditional ones are violations; segment() is followed with an empty match list for every layout.'
+        ' Round 12: no name is read that is bound nowhere (NameError); a ChunkParser attribute that may still be None is not handed to a function that dereferences it; a read under a correlated flag counts as assigned.'),
     'assumptions': [
         "methods of str/list/dict on well-typed receivers do not raise; re does not raise on valid patterns; recursion depth",
     ],
@@ -52,6 +53,9 @@ def check(ctx):
     ctx.attempt(_kwargs)
     ctx.attempt(_str_lists)
     ctx.attempt(_unbound_locals)
+    ctx.attempt(_optional_attrs_handed_to_derefs)
+    from .forward import undefined_names as _undefined_names
+    ctx.attempt(_undefined_names, [f for f in ctx.repo.funcs.values() if not f.module.name.startswith("pytrs.interface_tools")])
     ctx.attempt(_staged_optionals)
     ctx.attempt(_precondition_lengths)
     ctx.attempt(_divisions)
@@ -145,6 +149,42 @@ def _loop_witness(fi, use, cfg_node):
     return None
 
 
+def _correlated_flag(fi, use):
+    """`ok = False` ... `if cond: x = ...; ok = <expr>` ... `if ok: use(x)`: the read of x is reached only
+    when the flag was set in the very block that assigned x.  Returns the flag's name, or None."""
+    from ..srcmodel import literals as _lits
+    for e_, txt, pol in _lits(guards(use)):
+        if not (pol and isinstance(e_, ast.Name)):
+            continue
+        flag = e_.id
+        sets = [a for a in walk_local(fi.node) if isinstance(a, ast.Assign) and any(
+            isinstance(t, ast.Name) and t.id == flag for t in a.targets)]
+        if not sets:
+            continue
+        live = [a for a in sets if not (isinstance(a.value, ast.Constant) and not a.value.value)]
+        if not live:
+            continue
+        ok = True
+        for a in live:
+            blk, idx = None, None
+            par = getattr(a, '_parent', None)
+            for field in ('body', 'orelse', 'finalbody'):
+                lst = getattr(par, field, None)
+                if isinstance(lst, list) and a in lst:
+                    blk, idx = lst, lst.index(a)
+            if blk is None or isinstance(par, (ast.FunctionDef, ast.AsyncFunctionDef)):
+                ok = False
+                break
+            assigned_before = any(isinstance(x, ast.Name) and isinstance(x.ctx, ast.Store) and x.id == use.id
+                                  for st in blk[:idx] for x in ast.walk(st))
+            if not assigned_before:
+                ok = False
+                break
+        if ok:
+            return flag
+    return None
+
+
 def _unbound_locals(ctx):
     """definite assignment: no read of a local that a path reaches unassigned."""
     n_f = n_u = 0
@@ -167,6 +207,11 @@ def _unbound_locals(ctx):
                 ctx.ok('DEFUSE', construct, f"read only under `if {w}`, a container filled only inside the loop that "
                                             f"assigns `{use.id}` (non-empty => the loop body ran)")
                 ctx.assume(f"{w} is empty when {fi.qualname} starts scanning (set to [] by __init__, second pass only when empty)")
+                continue
+            fl = _correlated_flag(fi, use)
+            if fl:
+                ctx.ok('DEFUSE', construct, f"read only under `if {fl}`, a flag that is set (to something that can be true) only "
+                                            f"in the block that also assigns `{use.id}`")
                 continue
             ctx.violation('DEFUSE', construct,
                           f"`{use.id}` (line {use.lineno}) is read although a path from the start of {fi.qualname} reaches "
@@ -846,3 +891,65 @@ def _kwargs(ctx):
                 detail_bad=f"a malformed {cat} value in a config string is stored and fails later inside the parse",
                 key=f"EXC|_set_str_to_values|{cat}",
                 why="the value is handed to a helper whose validation was not recognised")
+
+
+def _optional_attrs_handed_to_derefs(ctx):
+    """ChunkParser starts with `working_twprge = None` / `working_sec = None`
+    and tests them against None in several places (so it believes they can
+    still be None while the chunk is walked).  Handing such an attribute to a
+    function that calls a method on its parameter straight away
+    (`twprge_short_to_natural(self.working_twprge)` -> `twprge.lower()`),
+    where no test on the way says it is set, raises AttributeError for a
+    description whose section comes before any Twp/Rge."""
+    ci = ctx.repo.cls('plss_parse:ChunkParser')
+    init = ci.methods.get('__init__')
+    if init is None:
+        return
+    optional = {t.attr for a in walk_local(init.node) if isinstance(a, ast.Assign) and isinstance(a.value, ast.Constant)
+                and a.value.value is None for t in a.targets if isinstance(t, ast.Attribute) and norm(t.value) == 'self'}
+    believed = set()
+    for m in ci.methods.values():
+        for x in ast.walk(m.node):
+            if isinstance(x, ast.Compare) and any(isinstance(y, ast.Constant) and y.value is None for y in ast.walk(x)):
+                believed |= {y.attr for y in ast.walk(x) if isinstance(y, ast.Attribute) and norm(y.value) == 'self'}
+    optional &= believed
+    n = 0
+    for m in ci.methods.values():
+        for c in walk_local(m.node):
+            if not isinstance(c, ast.Call):
+                continue
+            for i, a in enumerate(c.args):
+                if not (isinstance(a, ast.Attribute) and norm(a.value) == 'self' and a.attr in optional):
+                    continue
+                node_ = flow.RESOLVER(dotted(c.func) or '', c, m.node) if flow.RESOLVER and dotted(c.func) else None
+                cf = getattr(node_, '_func', None) if node_ is not None else None
+                if cf is None:
+                    continue
+                params = [p_ for p_ in cf.params() if not (isinstance(c.func, ast.Attribute) and p_ in ('self', 'cls'))]
+                if i >= len(params):
+                    continue
+                pname = params[i]
+                # an unconditional method call / subscript / iteration on the parameter at the top level of the callee
+                deref = None
+                for st in cf.node.body:
+                    if isinstance(st, (ast.If, ast.Try, ast.For, ast.While, ast.With)):
+                        break
+                    for x in ast.walk(st):
+                        if isinstance(x, ast.Attribute) and isinstance(x.value, ast.Name) and x.value.id == pname \
+                                and isinstance(getattr(x, '_parent', None), ast.Call) and x._parent.func is x:
+                            deref = x
+                    if deref is not None:
+                        break
+                if deref is None:
+                    continue
+                known = any(('is None' in txt and a.attr in txt and not pol) or (txt == f"self.{a.attr}" and pol)
+                            or (f"self.{a.attr} in" in txt and 'None' in txt and not pol)
+                            for _e, txt, pol in facts_at(c))
+                n += 1
+                ctx.check(known, 'EXC', f"{m.qualname}: `{norm(c)[:50]}` hands over an attribute known to be set",
+                          detail_bad=f"`self.{a.attr}` starts as None (and ChunkParser tests it against None elsewhere); "
+                                     f"{cf.qualname}() calls `{norm(deref)}()` on it unconditionally, and nothing in front of "
+                                     f"this call says it is set: AttributeError for a chunk in which this line runs before the "
+                                     f"first Twp/Rge / section was staged", key=f"EXC|{m.qualname}|none-deref|{a.attr}",
+                          where=common.loc(m, c))
+    return n
